@@ -156,9 +156,22 @@ func newWorld(base string, seed int64) (*world, error) {
 	blob := characteristic.NewBytes("F0000002-0000-1000-8000-0026BB765291")
 	blob.Perms = characteristic.PermsAll()
 	blob.SetValue([]byte{1, 2, 3})
+	// formats WITHOUT bounds (of the library's own types only the zoom characteristics have none): nothing clamps a value
+	ufloat := characteristic.NewFloat("F0000003-0000-1000-8000-0026BB765291")
+	ufloat.Perms = characteristic.PermsAll()
+	ufloat.SetValue(1.5)
+	uint32c := characteristic.NewInt("F0000004-0000-1000-8000-0026BB765291")
+	uint32c.Format = characteristic.FormatInt32
+	uint32c.Perms = characteristic.PermsAll()
+	uint32c.SetValue(7)
+	zoom := characteristic.NewDigitalZoom()
+	zoom.Perms = characteristic.PermsAll()
 	sv := service.New("F0000000-0000-1000-8000-0026BB765291")
 	sv.AddCharacteristic(note.Characteristic)
 	sv.AddCharacteristic(blob.Characteristic)
+	sv.AddCharacteristic(ufloat.Characteristic)
+	sv.AddCharacteristic(uint32c.Characteristic)
+	sv.AddCharacteristic(zoom.Characteristic)
 	sw.AddService(sv)
 	// an application registers typed callbacks
 	sw.Switch.On.OnValueRemoteUpdate(func(bool) {})
@@ -196,6 +209,9 @@ func newWorld(base string, seed int64) (*world, error) {
 	add(sw.Accessory, note.Characteristic, "custom.string")
 	add(sw.Accessory, blob.Characteristic, "custom.tlv8")
 	add(th.Accessory, th.Thermostat.TargetTemperature.Characteristic, "thermostat.target-temperature")
+	add(sw.Accessory, ufloat.Characteristic, "custom.float-without-bounds")
+	add(sw.Accessory, uint32c.Characteristic, "custom.int32-without-bounds")
+	add(sw.Accessory, zoom.Characteristic, "digital-zoom")
 	for _, ac := range accs {
 		for _, s := range ac.Services {
 			for _, c := range s.Characteristics {
